@@ -42,9 +42,11 @@ def plan(tier, seed):
     g = []
     for e in EOSES:
         for law, P, tmax, elshape, grid in itertools.product(("const", "linear", "debye"), (None, 0.0, 5.0, -2.0) if tier == "quick" else (None, 0.0, 0.5, 5.0, 20.0, -2.0, -6.0),
-                                                             (None, 300.0, 700.0) if tier == "quick" else (None, 0.0, 50.0, 100.0, 300.0, 420.0, 700.0, 950.0, 1000.0, 5000.0), ("V", "TV"),
+                                                             (None, 300.0, 700.0, 420.0, 304.0) if tier == "quick" else (None, 0.0, 50.0, 100.0, 300.0, 304.0, 420.0, 700.0, 731.0, 950.0, 1000.0, 5000.0), ("V", "TV"),
                                                              ("uniform", "nonuniform") if tier == "quick" else ("uniform", "nonuniform", "fine", "short")):
-            if tier == "quick" and grid == "nonuniform" and (P not in (None, 5.0) or tmax == 300.0):
+            if tier == "quick" and tmax in (420.0, 304.0) and (law != "linear" or P not in (None, 5.0)):
+                continue
+            if tier == "quick" and grid == "nonuniform" and (P not in (None, 5.0) or tmax in (300.0, 420.0)):
                 continue
             g.append({"kind": "qha", "eos": e, "law": law, "P": P, "tmax": tmax, "el": elshape, "grid": grid})
     for k in range(0, len(g), 12):
